@@ -110,6 +110,18 @@ def case(draw):
             jobs[p]["adds"].append(j["id"])
         else:
             top.append(j["id"])
+    # one child in a few cancel-bound cases lives much longer than the kill grace period (1 s under LLBUILD_TEST):
+    # whether it honours SIGINT, ignores it, or was launched as not safely interruptible, and whether or not it
+    # released its lane, it has to be gone (Cancelled) long before its 3 s are over
+    long_job = None
+    procs = [j for j in jobs if j["proc"] is not None and j.get("exe") == "-child" and j.get("fds") is None]
+    if procs and draw(st.integers(0, 5)) == 0:
+        lj = draw(st.sampled_from(procs))
+        pre = draw(st.sampled_from(["", "i,", "r,", "i,r,", "r,i,"]))
+        lj["proc"] = pre + "s3000,x0"
+        lj["control"] = True
+        lj["interrupt"] = draw(st.booleans())
+        long_job = lj["id"]
     nowait = draw(st.integers(0, 3)) == 0
     if nowait:
         # every job is submitted before the destructor starts (submitting to a queue whose destruction is
@@ -118,10 +130,12 @@ def case(draw):
             j["adds"] = []
         top = [j["id"] for j in jobs]
     cancel = draw(st.sampled_from([None, None, None, 1, 2, 5, 10]))
+    if long_job is not None and cancel is None:
+        cancel = draw(st.sampled_from([1, 2, 5, 10]))       # (the long child only appears in cancelled runs)
     if cancel is not None and cancel > n:
         cancel = n
     return {"kind": kind, "lanes": lanes, "alg": draw(st.sampled_from(["fifo", "prio"])), "jobs": jobs, "top": top,
-            "cancel": cancel,
+            "cancel": cancel, "long_job": long_job,
             # destroy the queue right after the submits: its destructor has to drain what is still queued
             "nowait": nowait}
 
@@ -320,6 +334,12 @@ def run_case(case, ctx, verbose=False):
         if j.get("fds") is not None and status == ST_FAILED and not got:
             starved = True      # the launch itself failed for lack of descriptors: a spawn error, reported once
             continue
+        # (running AT the cancellation: started before it, completed after it returned)
+        if jid == case.get("long_job") and cancel_ret is not None and jid in started and started[jid] < cancel_ret \
+                and cseq > cancel_ret and status != ST_CANCELLED:
+            return Outcome("job %s: its child (script %r, interrupt=%s) was running when cancelAllJobs() returned and "
+                           "sleeps for 3 s, yet it was left to finish on its own (status %d): it was neither "
+                           "interrupted nor killed after the grace period" % (jid, j["proc"], j["interrupt"], status))
         want, fate, released = expected_output(j, lanes_of[jid])
         released_any = released_any or released
         big = big or len(want) > 65536
@@ -350,6 +370,8 @@ def run_case(case, ctx, verbose=False):
         cls.append("lane-release")
     if starved:
         cls.append("descriptor-starved-launch")
+    if case.get("long_job") and cancelled_run:
+        cls.append("long-lived-child-at-cancel")
     if any(j.get("exe", "-child") != "-child" for j in case["jobs"] if j["proc"] is not None):
         cls.append("spawn-error")
     return Outcome(None, nontrivial=nt, classes=cls, detail={"jobs": len(case["jobs"]), "launches": len(launches)})
